@@ -1,1 +1,24 @@
 pub mod strict;
+pub mod filt;
+
+#[cfg(test)]
+pub(crate) mod testutil {
+    /// Tiny deterministic xorshift64* PRNG (unit tests of the reference implementations only).
+    pub struct Rng(pub u64);
+    impl Rng {
+        pub fn next_u64(&mut self) -> u64 {
+            let mut x = self.0;
+            x ^= x >> 12;
+            x ^= x << 25;
+            x ^= x >> 27;
+            self.0 = x;
+            x.wrapping_mul(0x2545_F491_4F6C_DD1D)
+        }
+        pub fn below(&mut self, n: usize) -> usize {
+            ((self.next_u64() >> 11) % n as u64) as usize
+        }
+        pub fn bytes(&mut self, n: usize, alphabet: usize) -> Vec<u8> {
+            (0..n).map(|_| self.below(alphabet) as u8).collect()
+        }
+    }
+}
